@@ -56,7 +56,14 @@ pub fn judge(root: &Path, c: &Case) -> Result<bool, (String, String)> {
         for (i, (put, key)) in c.writes.iter().enumerate() {
             crate::shim::begin_op(i as u32);
             let name = format!("k{}", key);
-            let op = Op { kind: if *put { OpKind::Put } else { OpKind::Set }, key: KeySpec::new(&name, *key as u64, !(*key as u64)), val: Val::new(&name, 1, i as u32, 1), pop: Pop::Value, nosy: false, link_from: None };
+            // through a stacked Cache every other write uses the temp-file entry points
+            let kind = match (*put, c.stacked && i % 2 == 1) {
+                (true, false) => OpKind::Put,
+                (false, false) => OpKind::Set,
+                (true, true) => OpKind::PutTemp,
+                (false, true) => OpKind::SetTemp,
+            };
+            let op = Op { kind, key: KeySpec::new(&name, *key as u64, !(*key as u64)), val: Val::new(&name, 1, i as u32, 1), pop: Pop::Value, nosy: false, link_from: None };
             if let Some((w, k)) = c.fault {
                 if w as usize == i {
                     crate::shim::set_fault(crate::shim::Fault::Inject(k, libc::EIO));
